@@ -94,9 +94,10 @@ def _specs(tier, rng):
                 s = [mult_vals[next(cnt) % len(mult_vals)] if (bits >> i) & 1 else non_vals[i % len(non_vals)] for i in range(n)]
                 fn.append((s, m))
     # long buffers (a map file is tens of kilobytes): beyond any recursion depth or table size one might assume
-    for n in (1999, 2000, 2048, 3001, 4096):
+    # (multiples with short runs only: the model's run search is quadratic in the run length)
+    for n in (1999, 2000, 2048, 3001):
         fn.append(([(i * 7 + 3) % 256 for i in range(n)], 3))
-        fn.append(([rng.randrange(256) for _ in range(n)], rng.choice([1, 2, 7, 255])))
+        fn.append(([rng.randrange(1, 256) for _ in range(n)], rng.choice([3, 7, 255])))
     nrand = 20_000 if tier == "quick" else 300_000
     for _ in range(nrand):
         n = rng.randrange(0, 513 if rng.random() < 0.05 else 40)
